@@ -84,6 +84,53 @@ CLAIMS = {
             "NOT decided: whether a given input crosses a threshold; rotation invariance. Undetermined dimensions are "
             "counted, never reported.",
             "DESIGN.md section 2, C12"),
+    "C06": ("kind inference against the frozen documented tables; abstract interpretation of the chain constructors and "
+            "of the curve-grouping routine on stand-in worlds; singleton-discipline structural rule",
+            "Decides the kind of every operator result cell by cell against docs/source/rst/shape.rst (105 cells), the "
+            "singleton discipline of Empty/Whole, that a curve can only be assembled from a closed chain glued at "
+            "all cyclic junctions (broken chains and non-curves are rejected), that result curves are grouped by "
+            "mutual containment seeded by the largest |area| with >= 2 subshapes per ConnectedShape, and the "
+            "no-boundary singleton exits.",
+            "NOT decided: absence of zero-length pieces / self-crossings, geometric disjointness of components, the "
+            "laws S|~S is Whole etc. (they depend on the numeric path). Grouping is decided on nested/disjoint worlds.",
+            "DESIGN.md section 2, C06"),
+    "C07": ("exception-escape analysis over the call graph with failure categories, abstract interpretation of the "
+            "shape __eq__ methods on stand-in operands, cyclic-index length analysis",
+            "Decides that no data-dependent raise/assert/division escapes to == on well-formed operands, that shape "
+            "equality is multiset equality of the constituents with the kind guard and a bool result, that no exact "
+            "float comparison of measures sits on the == path, that coordinate equality is type-independent, that "
+            "cyclic indices use the length of the indexed sequence, and that uniting redundant pieces uses the "
+            "junction tangents.",
+            "NOT decided: reflexivity/symmetry/transitivity as such, the point-sampling plus clean() comparison "
+            "inside JordanCurve.__eq__, tolerances. Implicit exceptions other than ZeroDivisionError are not modelled.",
+            "DESIGN.md section 2, C07"),
+    "C13": ("exactness taint analysis (kinds Z/I/Q/S/A/F) with sinks at stored coordinates, constructor arguments and "
+            "returned values, over the frozen rational-path entry table plus its callee closure",
+            "Decides that on the rational / straight-segment paths no float and no limit_denominator-rounded value "
+            "reaches a stored coordinate, a constructor argument or a returned parameter/integral, and that the "
+            "Fraction API receives exact ints with the documented cap >= 10**9 applied only in Point2D.__init__.",
+            "Trusted base: numpy object-array dot/inner/prod and pynurbs (open_newton_cotes, Curve.split, knots) "
+            "preserve Fractions. Values, not kinds, are not decided (a wrong exact formula is C04/C14's business).",
+            "DESIGN.md section 2, C13"),
+    "C14": ("abstract interpretation of the segment/curve intersection routines over all result classes and parameter "
+            "cells, dimension check of the exact solver",
+            "Decides the None / () / pairs sentinel discipline of PlanarCurve.__and__ and of its reader, the flag "
+            "filter table of JordanCurve.intersection (40 cells) and A & B, the [0,1]^2 range of every returned "
+            "pair (exact line solver over 25 cells + Newton clamp), index and parameter roles, sortedness, and that "
+            "the line-line solver uses no tolerance.",
+            "NOT decided: completeness of the Newton search for curved pieces, parity of crossings. Only a small named "
+            "fraction of the statement.",
+            "DESIGN.md section 2, C14"),
+    "C15": ("abstract interpretation of split / __split_segment / clean / the uniting helper on stand-in chains with "
+            "exact rational stand-in geometry",
+            "Decides that split ignores exactly the end parameters, addresses later segments correctly after "
+            "insertions, replaces a segment in place by the pieces at the sorted parameters with all junctions "
+            "re-glued, that clean() runs to a fixpoint keeping the junction objects, that BezierCurve.clean lowers "
+            "the degree exactly while the error is within tolerance, and that two pieces of a curve split at t are "
+            "united at node t.",
+            "NOT decided: every numerical clause (point sets, areas, tolerances, least-squares degree reduction, "
+            "near-duplicate parameters). pynurbs knot operations are trusted.",
+            "DESIGN.md section 2, C15"),
 }
 
 NOT_YET = "check not built yet in this round (planned, see DESIGN.md section 2)"
